@@ -76,6 +76,31 @@ CHECKS = {
                  ops=DEL + ['collect_garbage', 'collapse_edge', 'collapse_edge', 'collapse_edge', 'tet_add_cell_4', 'tet_add_cell_v',
                             'add_vertex', 'split_edge', 'split_face', 'enable_deferred', 'enable_fast'], q=1),
     ),
+    # C03 stage: property values through collapse_edge (and split_*).  Not a registered check of its
+    # own: run as `python3 bin/tethex_check.py C03 --tier ...`; prints a C03STATS line, writes no evidence.
+    'C03': dict(
+        kind='tet', props=['C03'], plevel=2, stamp_each=True, stats_only=True,
+        quick=[
+            dict(name='collapse-1', Depth=1, SeedIds=[1, 2, 3, 4, 5, 6, 7, 8, 9, 10], HistOps=[],
+                 TargetOps=['collapse_edge'], q=0),
+            dict(name='collapse-2', Depth=2, SeedIds=[2, 3, 5, 6, 8, 9],
+                 HistOps=['collapse_edge', 'delete_cell', 'delete_vertex'],
+                 TargetOps=['collapse_edge'], q=0, sample=600),
+        ],
+        thorough=[
+            dict(name='collapse-2', Depth=2, SeedIds=[1, 2, 3, 4, 5, 6, 7, 8, 9, 10],
+                 HistOps=['collapse_edge', 'delete_cell', 'delete_vertex', 'delete_face', 'collect_garbage'],
+                 TargetOps=['collapse_edge'], q=0, sample=12000),
+            dict(name='collapse-3', Depth=3, SeedIds=[2, 3, 5, 6, 8, 9],
+                 HistOps=['collapse_edge', 'delete_cell'], TargetOps=['collapse_edge'], q=0, sample=6000),
+            dict(name='splits', Depth=3, SeedIds=[1, 2, 3, 5, 6], Modes='ModesAll', HistOps=['add_vertex', 'split_edge', 'split_face'],
+                 TargetOps=['split_edge', 'split_face', 'collapse_edge'], q=0, sample=5000),
+        ],
+        sim=dict(quick=dict(SeedIds=[21, 7, 9, 10], num=8, depth=12),
+                 thorough=dict(SeedIds=[21, 22, 7, 9, 10], num=120, depth=30),
+                 ops=['delete_cell', 'delete_face', 'collect_garbage', 'collapse_edge', 'collapse_edge', 'collapse_edge', 'collapse_edge',
+                      'tet_add_cell_4', 'add_vertex', 'split_edge', 'split_face', 'enable_deferred', 'enable_fast'], q=0),
+    ),
     'C16': dict(
         kind='hex', props=['C16'],
         quick=[
@@ -436,8 +461,11 @@ def run_check(prop, tier, seed, replay=None):
                                      org=mb.get('script'), detail=json.dumps(mb)))
             if not trans:
                 continue
-            opts = 'props=1 q=%d' % c.get('q', 1)
+            opts = 'props=%d q=%d' % (cfg.get('plevel', 1), c.get('q', 1))
             scripts = vlib.tree_scripts(r['orgs'], trans, opts, NPAR * 2, mesh=kind)
+            if cfg.get('stamp_each'):
+                # every new slot gets distinct values before the next call (logged, not checked)
+                scripts = [re.sub(r'(?m)^(C 1 .*)$', r'\1\nC 2 stamp 0 0 0 0', sc) for sc in scripts]
             if len(cov['samples']) < 4:
                 k, p = trans[len(trans) // 2]
                 cov['samples'].append(dict(config=c['name'], seed_and_modes=list(k), calls=p))
@@ -468,7 +496,8 @@ def run_check(prop, tier, seed, replay=None):
                 for mb in r['mbads']:
                     failures.append(dict(msg='MODEL:' + mb['bad'], path=mb['path'], script='', x=0, model=True,
                                          org=mb.get('script'), detail=json.dumps(mb)))
-            scripts = [vlib.linear_script(h['script'] + h['path'], 'props=1 q=%d' % sim['q'], mesh=kind, silent_prefix=len(h['script']))
+            scripts = [vlib.linear_script(h['script'] + h['path'], 'props=%d q=%d' % (cfg.get('plevel', 1), sim['q']), mesh=kind,
+                                          silent_prefix=len(h['script']))
                        for h in hist]
             nsh = NPAR
             shards = [''.join(scripts[i::nsh]) for i in range(nsh) if scripts[i::nsh]]
@@ -481,7 +510,7 @@ def run_check(prop, tier, seed, replay=None):
             cov['configs'].append(dict(c, tlc_wall_s=round(simwall, 1), histories=len(hist), steps_total=sum(len(h['path']) for h in hist)))
             if hist:
                 cov['samples'].append(dict(random_history=hist[0]['path'][:10]))
-        if tier == 'thorough' or os.environ.get('VERIF_SELFTEST'):
+        if (tier == 'thorough' or os.environ.get('VERIF_SELFTEST')) and not cfg.get('stats_only'):
             cov['selftest'] = selftest(prop, kind, work, 'plain')
 
     # ---- classification: known findings vs. violations
@@ -511,7 +540,7 @@ def run_check(prop, tier, seed, replay=None):
                 open(p, 'w').write('# ' + f.get('msg', '') + '\n# ' + f.get('detail', '').replace('\n', '\n# ') + '\n')
             cov['model_findings'].append(dict(msg=f['msg'], path=f.get('path', [])[-2:]))
         else:
-            p = write_replay(prop, kind, f, 'props=1 q=1')
+            p = write_replay(prop, kind, f, 'props=%d q=1' % cfg.get('plevel', 1))
         key = (f.get('msg'), sig['op'], sig['check']) if len(seen) > 12 else (f.get('msg'), p)
         if key in seen:
             continue
@@ -527,7 +556,13 @@ def run_check(prop, tier, seed, replay=None):
         cov['states'] = 1
     if cov['transitions'] == 0:
         cov['transitions'] = 1
-    vlib.write_evidence(prop, tier, seed, 'model_checking', cov, time.time() - t0, nviol, ASSUMPTIONS)
+    if cfg.get('stats_only'):
+        print('%sSTATS %s' % (prop, json.dumps(dict(tier=tier, seed=seed, states=cov['states'], transitions=cov['transitions'],
+              traces_validated_against_impl=cov['traces_validated_against_impl'], impl_steps_executed=cov['impl_steps_executed'],
+              random_histories=cov.get('random_histories', 0), counters=cov['counters'], drift_lines=cov['drift_lines'],
+              configs=cov['configs'], samples=cov['samples'], violations=nviol, wall_s=round(time.time() - t0, 1)))))
+    else:
+        vlib.write_evidence(prop, tier, seed, 'model_checking', cov, time.time() - t0, nviol, ASSUMPTIONS)
     if rc == 0 and not os.environ.get('VERIF_KEEP'):
         shutil.rmtree(work, ignore_errors=True)
     return rc
